@@ -116,6 +116,11 @@ Definition bulk_tokens (r : res (list ver)) : list ltoken :=
   | Fail _ _ => [LTErr]
   end.
 
+(* GetComponents walks the definition registry: every registered component once the definitions have been scanned,
+   nothing when the start failed before that (a failing loader) *)
+Definition bulk_names (s : scenario) (st : fstate) : list name :=
+  if scanned st then names_of (s_pop s) else [].
+
 Definition model_obs (vt : variant) (c : wcase) : obs :=
   let s := w_scn c in
   let x := w_x c in
@@ -131,7 +136,7 @@ Definition model_obs (vt : variant) (c : wcase) : obs :=
     let '(o2, (st2, outs)) := lookups_core_xt vt (normalise vt s) x (w_lookups c) st in
     let '(o3, (st3, bulk)) :=
       match ob_bulk (w_obs c) with
-      | Some _ => let '(o3, (st3, b)) := bulk_core_xt vt (normalise vt s) x (names_of (s_pop s)) st2 in
+      | Some _ => let '(o3, (st3, b)) := bulk_core_xt vt (normalise vt s) x (bulk_names s st2) st2 in
                   (o3, (st3, Some (bulk_tokens b)))
       | None => ([], (st2, None))
       end in
